@@ -90,6 +90,19 @@ class C10(runner.Prop):
                     pass
                 except Exception as e:  # noqa: BLE001
                     ctx.fail('transpose/empty_wrong_exception', f'{type(e).__name__}: {e}')
+                if N == 0 and M > 0:
+                    # an explicitly given inner structure without leaves is an empty structure too: it must be refused,
+                    # not silently replaced by the structure of the first result
+                    for fname, fn in (('tree_transpose_map', optree.tree_transpose_map),
+                                      ('tree_transpose_map_with_path', optree.tree_transpose_map_with_path),
+                                      ('tree_transpose_map_with_accessor', optree.tree_transpose_map_with_accessor)):
+                        try:
+                            fn(lambda *a: (U.Leaf(1), U.Leaf(2)), o, inner_treespec=I, **kw)
+                            ctx.fail(f'{fname}/empty_given_inner_accepted', f'I={I}')
+                        except ValueError:
+                            pass
+                        except Exception as e:  # noqa: BLE001
+                            ctx.fail(f'{fname}/empty_given_inner_wrong_exception', f'{type(e).__name__}: {e}')
                 if M == 0:
                     try:
                         optree.tree_transpose_map(lambda x: 0, o, **kw)
